@@ -58,4 +58,18 @@ theorem scaledRoundTrip : ScaledRoundTrip := by
     · intro d hd; exact h10 d hd
     · intro hnil; rw [hnil] at h1; simp at h1
 
+/-- The printer never writes more than five fraction digits (TeX §103). -/
+theorem fracDigits_short (fp : Nat) (hfp : fp < 65536) : (fracDigits fp).length ≤ 5 := by
+  have h := C06.fracOK_all fp hfp
+  unfold C06.fracOK at h
+  split at h
+  · cases h
+  · rename_i ds hds
+    simp only [Bool.and_eq_true, decide_eq_true_eq, List.all_eq_true] at h
+    obtain ⟨⟨⟨⟨h5, h1⟩, h10⟩, hrd⟩, hpl⟩ := h
+    have e : fracDigits fp = ds := by
+      unfold fracDigits
+      rw [fracDigitsAux_eq_printLoop, Nat.mul_comm fp 10, hpl]
+    rw [e]; exact h5
+
 end C18
